@@ -5,7 +5,7 @@ from .drivers import history
 def gen_history(m, rng, job):
     g = history.Gen(m, rng, history.PROFILES[job['profile']], maxlen=job.get('maxlen', 8),
                     odd=job.get('odd', 0.0), more=job.get('more', 0.3), anstr=job.get('anstr', 0.15))
-    return g.run(job.get('nops', 10)), {}
+    return g.run(job.get('nops', 10), epilogue=job.get('epilogue', ())), {}
 
 
-GENERATORS = {'history': gen_history}
+GENERATORS = {'history': gen_history, 'render_family': history.gen_render_family, 'parse_input': history.gen_parse_input}
